@@ -112,6 +112,39 @@ def exotic_cases():
             if ik == 'nested-generic' and sk == 'all':
                 pass
             out.append(Case('C01|exotic|%s|%s' % (ik, sk), it.format(A=a, VD='#[educe(Default)] ' if 'Default' in a else ''), {'item': ik, 'traits': sk}, expect='accept', run=False, depth=2))
+    # every bound mode of every trait on types whose generics mix lifetimes, type and const parameters (a bound mode must only ever speak about type parameters)
+    gshapes = {
+        'gs': "pub struct Ty<'a, T: Copy, const CN: usize, U = u8> { pub a: &'a T, pub b: [U; CN], {F}pub c: u8 }",
+        'gt': "pub struct Ty<const CN: usize, T>(pub [T; CN], {F}pub u8);",
+        'ge': "pub enum Ty<'a, const CN: usize, T: 'a> { {VD}A(&'a T, {F}u8), B { x: [u8; CN] }, C }",
+        'gc': "pub struct Ty<const CN: usize, const FLAG: bool> { pub a: [u8; CN], {F}pub c: u8 }",
+        'gu': "pub union Ty<T: Copy, const CN: usize> { {VD}pub a: [u8; CN], pub b: T }",
+    }
+    gsets = {'Debug': ['Debug({B})'], 'Clone': ['Clone({B})'], 'Copy': ['Copy', 'Clone({B})'], 'PartialEq': ['PartialEq({B})'], 'Eq': ['PartialEq({B})', 'Eq'],
+             'PartialOrd': ['PartialEq({B})', 'PartialOrd({B})'], 'Ord': ['PartialEq({B})', 'Eq', 'PartialOrd', 'Ord({B})'], 'Hash': ['Hash({B})'], 'Default': ['Default({B})'],
+             'Into': ['Into(u8, {B})'], 'Deref': ['Deref', 'DerefMut']}
+    for gk, decl in gshapes.items():
+        for sk, metas in gsets.items():
+            union = gk == 'gu'
+            if union and sk in ('PartialOrd', 'Ord', 'Into', 'Deref', 'Debug', 'PartialEq', 'Eq', 'Hash', 'Clone'):      # (byte-wise union impls take no bound)
+                continue
+            if gk == 'ge' and sk in ('Into', 'Deref'):
+                continue     # (unit variant)
+            for bk, b in (('star', 'bound(*)'), ('off', 'bound = false'), ('custom', 'bound(u8: Copy)'), ('string', 'bound = "u8: Copy,"')):
+                if sk == 'Deref' and bk != 'star':
+                    continue
+                ms = [m.replace('{B}', b) for m in metas]
+                if union:
+                    ms = [m.replace('Debug(', 'Debug(unsafe, ').replace('PartialEq(', 'PartialEq(unsafe, ').replace('Hash(', 'Hash(unsafe, ') for m in ms]
+                f = {'Into': '#[educe(Into(u8))] ', 'Deref': '#[educe(Deref, DerefMut)] '}.get(sk, '')
+                vd = '#[educe(Default)] ' if sk == 'Default' else ''
+                src = '#[derive(Educe)]\n%s%s\n' % (''.join('#[educe(%s)]\n' % m for m in ms), decl.replace('{F}', f).replace('{VD}', vd))
+                if bk in ('off', 'custom', 'string') or sk == 'Default':
+                    # without automatic bounds the impls need what the fields need: state it on the use site instead (the item only has to expand and type-check as an item
+                    # when the bound is sufficient, which `bound(*)` is for these shapes); off / custom modes are checked for acceptance only
+                    out.append(Case('C01|genbound|%s|%s|%s' % (gk, sk, bk), src, {'shape': gk, 'traits': sk, 'bound': b}, expect='accept-only', run=False, depth=2))
+                else:
+                    out.append(Case('C01|genbound|%s|%s|%s' % (gk, sk, bk), src, {'shape': gk, 'traits': sk, 'bound': b}, expect='accept', run=False, depth=2))
     # several Into targets, each taken from its own field through a conversion that exists for that pair only
     conv = [('String', "&'static str"), ('u16', 'u8'), ('u64', 'u32'), ('W', 'u16'), ('Vec<u8>', "&'static [u8; 2]"), ('f64', 'f32')]
     for r in (2, 3, 4):
@@ -207,10 +240,12 @@ def check(v, tier):
             else:
                 warn_free += 1
         elif r.status == 'educe_diag':
-            if c.expect == 'accept':
+            if c.expect in ('accept', 'accept-only'):
                 v.violation(c, 'a documented request on a supported shape is refused: %s' % '; '.join(d['msg'][:200] for d in r.errors() if d['kind'] == 'educe')[:400])
         elif r.status == 'panic':
             v.violation(c, 'the macro panicked: %s' % r.errors()[0]['msg'][:200])
+        elif c.expect == 'accept-only':
+            pass        # accepted by educe; whether an explicitly insufficient bound type-checks is the user's business
         else:
             v.violation(c, 'educe accepted the request but the generated code does not compile (%s): %s' % (r.status, '; '.join((d['code'] or '') + ' ' + d['msg'][:200] for d in r.errors()[:2])))
     v.cov['distinct_nontrivial'] = warn_free
